@@ -348,6 +348,50 @@ func runC05(seed int64, n int, tier string, outDir string) (*Report, error) {
 			rep.Sample(string(text))
 		}
 	}
+	// directed: an embedded object without id and type that holds exactly ONE property (every property of the
+	// object core in turn), in a single-item position and as a list member: it must not be taken for "nothing"
+	oneProp := map[string]any{
+		"name": "n", "summary": "s", "content": "c", "attachment": "https://example.com/x", "attributedTo": "https://example.com/x",
+		"audience": []any{"https://example.com/x"}, "context": "https://example.com/x", "mediaType": "text/plain", "endTime": "2024-05-01T10:00:00Z",
+		"generator": "https://example.com/x", "icon": "https://example.com/x", "image": "https://example.com/x", "inReplyTo": "https://example.com/x",
+		"location": "https://example.com/x", "preview": "https://example.com/x", "published": "2024-05-01T10:00:00Z", "replies": "https://example.com/x",
+		"startTime": "2024-05-01T10:00:00Z", "tag": []any{"https://example.com/x"}, "updated": "2024-05-01T10:00:00Z", "url": "https://example.com/x",
+		"to": []any{"https://example.com/x"}, "bto": []any{"https://example.com/x"}, "cc": []any{"https://example.com/x"}, "bcc": []any{"https://example.com/x"},
+		"duration": "PT5S", "likes": "https://example.com/x", "shares": "https://example.com/x", "source": map[string]any{"content": "src"},
+		"nameMap": map[string]any{"en": "a", "fr": "b"}, "summaryMap": map[string]any{"en": "a", "fr": "b"}, "contentMap": map[string]any{"en": "a", "fr": "b"},
+	}
+	var terms []string
+	for t := range oneProp {
+		terms = append(terms, t)
+	}
+	sort.Strings(terms)
+	for _, t := range terms {
+		inner := map[string]any{t: oneProp[t]}
+		for pi, outer := range []map[string]any{
+			{"type": "Note", "id": "https://example.com/outer", "attachment": inner},
+			{"type": "Note", "id": "https://example.com/outer", "tag": []any{"https://example.com/first", inner}},
+		} {
+			text, _ := json.Marshal(outer)
+			rep.Evaluations++
+			rep.Count("one-property-embedded")
+			y, err := ap.UnmarshalJSON(text)
+			kept := false
+			if err == nil && y != nil {
+				_ = ap.OnObject(y, func(o *ap.Object) error {
+					if pi == 0 {
+						kept = !ap.IsNil(o.Attachment)
+					} else {
+						kept = len(o.Tag) == 2
+					}
+					return nil
+				})
+			}
+			if !kept {
+				rep.Violate(Violation{Op: "decode reads what the document says", Input: string(text), Expected: "the embedded object holding only " + t + " is read", Observed: "it is ignored", Class: ""})
+			}
+			cw.Add("("+hx(text)+", Ok "+CoqItem(y)+")", "one-property "+t)
+		}
+	}
 	// mocks
 	mocks, _ := filepath.Glob(filepath.Join(repoDir(), "tests", "mocks", "*.json"))
 	sort.Strings(mocks)
